@@ -257,5 +257,20 @@ def r_C11eval(root, full=None):
         oks = same(got, want) and want is not None
         ob("C11", "C11.h", R, "find_object_with_path", "name %r split at %r" % (name, split), oks)
         if not oks: out.append(Finding("C11", "C11.h", R, "find_object_with_path", "split_string %r" % split, "the name %r with separator %r resolves to %s; documented: the class D of package p1.inner (empty name parts are dropped)" % (name, split, describe(got))))
+    # the wrapper find(): the object of the result (a name given as a string is split and its empty parts dropped on the way)
+    ff = find(t, "find"); ffps = [a.arg for a in ff.args.args]
+    if ffps[:5] != ["obj", "lookup_list", "rrel_tree", "obj_cls", "split_string"]: raise AnalysisError("find: parameters %s" % ffps)
+    for split, name in ((".", "p1.inner.D"), ("::", "p1::inner::D"), ("::", "::p1::inner::D"), ("::", "p1::inner::D::"), ("::", "p1::::inner::D"), (".", ["p1", "inner", "D"])):
+        inst += 1; n_cases += 1
+        sp, tree = trees["packages*.classes"]
+        env = dict(env0); env.update({"obj": model, "lookup_list": name, "rrel_tree": tree, "obj_cls": None, "split_string": split})
+        for extra_ in ffps[5:]: env[extra_] = False
+        try: got = pyeval.run_block(ff.body, env, max_steps=20000)
+        except pyeval.Raised as r_: got = ("raise", r_.cls)
+        except pyeval.Unsupported as u_: raise AnalysisError("find(%r): outside the evaluated subset: %s" % (name, u_))
+        want = reference(sp, model, ["p1", "inner", "D"], None)
+        okf = want is not None and got is want[0]
+        ob("C11", "C11.h", R, "find", "find() for the name %r split at %r" % (name, split), okf)
+        if not okf: out.append(Finding("C11", "C11.h", R, "find", "find(model, %r, packages*.classes, split_string=%r)" % (name, split), "find() with the name %r and separator %r gives %s; documented: the class D of package p1.inner (a name is split at the separator, empty name parts are dropped; a list of parts is taken as it is)" % (name, split, describe(got) if isinstance(got, tuple) or got is None else ("another object" if got is not want[0] else "it"))))
     STATS.counters["C11.h evaluated cases"] = n_cases
     return inst, out
